@@ -25,8 +25,11 @@ if not os.path.exists(src + "/patch.diff"):
 env = dict(os.environ, GOFLAGS="-mod=mod", GOPROXY="off")
 wt = "/tmp/sv-" + tag
 subprocess.run(["git", "-C", "/repo", "worktree", "remove", "--force", wt], stderr=subprocess.DEVNULL)
-subprocess.run(["git", "-C", "/repo", "worktree", "add", "-q", "--detach", wt, "HEAD"], check=True)
-rec = {"tag": tag, "property": pid, "ran": []}
+base = "HEAD"
+if "--base" in a:
+    base = a[a.index("--base") + 1]
+subprocess.run(["git", "-C", "/repo", "worktree", "add", "-q", "--detach", wt, base], check=True)
+rec = {"tag": tag, "property": pid, "ran": [], "repo_base": subprocess.run(["git", "-C", "/repo", "rev-parse", "--short", base], stdout=subprocess.PIPE, text=True).stdout.strip()}
 
 
 def sh(cmd, **kw):
